@@ -45,6 +45,8 @@ var c28Kinds = []string{
 	"big-header",        // header section above MaxHeaderBytes
 	"bad-request-line",  // unparsable request line
 	"post-cl-conn-close", // Connection: close
+	"mod-post-chunked-badsize", // module answers; the unread chunked body has a malformed chunk-size line
+	"post-chunked-badsize",     // forwarded; the chunked body has a malformed chunk-size line
 }
 
 // decoy is what request bodies are made of: if body bytes are ever parsed as a
@@ -110,6 +112,10 @@ func (c *c28Case) bytes() []byte {
 				rest = rest[k:]
 			}
 			out.WriteString("0\r\n\r\n")
+		case "mod-post-chunked-badsize", "post-chunked-badsize":
+			head("POST", "HTTP/1.1")
+			out.WriteString("Transfer-Encoding: chunked\r\n\r\n5\r\nhello\r\nZZ\r\n")
+			out.Write(c28Body(id, 300)) // what follows the bad line looks like requests
 		case "post-expect", "mod-post-expect":
 			head("POST", "HTTP/1.1")
 			fmt.Fprintf(&out, "Expect: 100-continue\r\nContent-Length: %d\r\n\r\n", len(body))
@@ -127,7 +133,7 @@ func (c *c28Case) bytes() []byte {
 // desync reports whether after request kind k bfe cannot (or need not) continue on the connection.
 func c28Terminal(k string) bool {
 	switch k {
-	case "get-http10", "big-header", "bad-request-line", "post-cl-conn-close":
+	case "get-http10", "big-header", "bad-request-line", "post-cl-conn-close", "mod-post-chunked-badsize", "post-chunked-badsize":
 		return true
 	}
 	return false
@@ -142,7 +148,7 @@ func c28Gen(g *vkit.Rand, id int) *c28Case {
 			k = "get" // keep terminal kinds rarer so that sequences go on
 		}
 		q := c28Req{Kind: k}
-		if strings.Contains(k, "post") {
+		if strings.Contains(k, "post") && !strings.HasSuffix(k, "badsize") {
 			q.Blen = []int{1, 90, 700, 4096, 65536, 300000, 1100000}[g.Intn(g.Range(5, 7))]
 		}
 		c.Reqs = append(c.Reqs, q)
@@ -156,7 +162,7 @@ func c28Gen(g *vkit.Rand, id int) *c28Case {
 }
 
 func c28(r *vkit.Run) {
-	r.SetRule("full in-process BFE (MaxHeaderBytes 8192); each connection carries 2-6 pipelined requests drawn from 13 kinds (GET, HEAD, POST with Content-Length / chunked / Expect: 100-continue bodies of 1 B..1.1 MB, the same answered by a module response so that no handler reads the body, HTTP/1.0, Connection: close, a 20 KB header, an unparsable request line), written in one segment or split at random sizes; request bodies consist of well-formed decoy requests; the client byte stream is parsed by the strict reference response parser: responses must match requests in order (ids echoed by backend/module), at most one final response each, no decoy ever answered or seen by a backend, nothing after a request that ends the connection. Non-trivial = >=2 requests answered or a terminal kind in the middle; distinct = kind/size sequence")
+	r.SetRule("full in-process BFE (MaxHeaderBytes 8192); each connection carries 2-6 pipelined requests drawn from 15 kinds (GET, HEAD, POST with Content-Length / chunked / Expect: 100-continue bodies of 1 B..1.1 MB, the same answered by a module response so that no handler reads the body, HTTP/1.0, Connection: close, a 20 KB header, an unparsable request line, chunked bodies with a malformed chunk-size line both forwarded and left unread by a module response), written in one segment or split at random sizes; request bodies consist of well-formed decoy requests; the client byte stream is parsed by the strict reference response parser: responses must match requests in order (ids echoed by backend/module), at most one final response each, no decoy ever answered or seen by a backend, nothing after a request that ends the connection. Non-trivial = >=2 requests answered or a terminal kind in the middle; distinct = kind/size sequence")
 	bs := e2e.NewBackendSet()
 	defer bs.Close()
 	be := bs.New("b1", func(x *e2e.Exchange) e2e.Action {
